@@ -139,19 +139,37 @@ structure St where
   implErr : Bool := false
   bad : Option String := none
   tokOnly : Bool := false
+  wants : List (Str × Bool × Str × String) := []   -- key, nested?, original text, yaml kind
+  implTyped : List (Str × List String) := []
+  implStrmap : Option Val := none
 
 def St.env (s : St) : Env :=
   { mode := s.mode, defaultScheme := s.defaultScheme, schemes := s.schemes,
     prov := fun sc nm => (s.provs.find? (fun e => e.1.1 == sc && e.1.2 == nm)).map (·.2) }
 
+def showOptStr : Option Str → String
+  | some s => s!"s{hexStr s};"
+  | none => "err"
+
 def showTyped (v : Val) : String :=
-  let sv := match decodeString v with | some s => s!"s{hexStr s};" | none => "err"
+  let sv := showOptStr (decodeString v)
+  let ps := match decodePtrString v with
+    | some (some s) => s!"s{hexStr s};"
+    | some none => "nil"
+    | none => "err"
+  let nv := showOptStr (decodeNestedString v)
   let plain := sanitize false v
   let iv := match plain with
     | .float _ | .other _ => "skip"
     | _ => match decodeInt v with | some i => s!"{i}" | none => "err"
   let bv := match decodeBool v with | some true => "t" | some false => "f" | none => "err"
-  s!"s={sv} i={iv} b={bv}"
+  s!"s={sv} ns={sv} ps={ps} n={nv} a={showVal (decodeAny v)} i={iv} b={bv}"
+
+partial def hasExpanded : Val → Bool
+  | .expanded .. => true
+  | .list xs => xs.toList.any hasExpanded
+  | .map m => m.toList.any (fun kv => hasExpanded kv.2)
+  | _ => false
 
 def isEscCandidate : List Tok → Bool
   | .esc :: .lit ('{' :: _) :: _ => true
@@ -196,6 +214,35 @@ def checkLeftover (s : St) (res : Val) : Option String :=
     let sig := if cyc then "C12/cycle/returned-as-fixed-point" else "C12/expand/known-reference-left-in-output"
     some s!"sig={sig} ref={hexStr sc}:{hexStr nm} in={hexStr str}"
 
+/-- the search oracle for "its original text when assigned to a string field": a whole-value reference whose provider
+text is `txt` (free of `$`) must show exactly `txt` in every string-kind target, whatever YAML type the text parses to -/
+def checkWants (s : St) : Option String :=
+  s.wants.findSome? (fun (k, nested, txt, kind) =>
+    match s.implTyped.find? (fun e => e.1 == k) with
+    | none => none
+    | some (_, fields) =>
+      let want := s!"s{hexStr txt};"
+      let targets : List (String × String) :=
+        if nested then [("n", "nested-struct-string")]
+        else [("s", "string"), ("ns", "named-string"), ("ps", "ptr-string")]
+      targets.findSome? (fun (f, tname) =>
+        match kv fields f with
+        | some got => if got == want then none else
+            some s!"sig=C12/typed/string-field-lost-original-text/{kind}/{tname} key={hexStr k} want={want} got={got}"
+        | none => some s!"sig=C12/harness/typed-field-missing {f}"))
+
+def checkLeaks (s : St) : Option String :=
+  match s.implStrmap with
+  | some v => if hasExpanded v then some "sig=C12/typed/expanded-value-leaked/tostringmap" else
+      s.implTyped.findSome? (fun (k, fields) =>
+        match kv fields "a" with
+        | some "panic" => some s!"sig=C12/typed/panic/any-field key={hexStr k}"
+        | some a => (match parseValTok a with
+            | some v => if hasExpanded v then some s!"sig=C12/typed/expanded-value-leaked/any-field key={hexStr k}" else none
+            | none => none)
+        | none => none)
+  | none => none
+
 def handler : Handler St where
   init := {}
   onOp := fun s toks =>
@@ -221,6 +268,12 @@ def handler : Handler St where
       match (if key = "-" then some [] else unhexStr key.toList), parseToks ts with
       | some k, some ts => ({ s with toks := s.toks ++ [(k, ts)] }, [])
       | _, _ => (s, ["obs bad-op"])
+    | [w, key, txt, kind] =>
+      if w == "want" || w == "wantn" then
+        match (if key = "-" then some [] else unhexStr key.toList), (if txt = "-" then some [] else unhexStr txt.toList) with
+        | some k, some t => ({ s with wants := s.wants ++ [(k, w == "wantn", t, kind)] }, [])
+        | _, _ => (s, ["obs bad-op"])
+      else (s, ["obs bad-op"])
     | "resolve" :: rest =>
       let hint := (kv rest "hint").getD "-"
       let s := { s with tokOnly := kv rest "tokonly" == some "1" }
@@ -242,6 +295,14 @@ def handler : Handler St where
       | some v => { s with implRes := some v }
       | none => { s with bad := some "unparsable res" }
     | _ :: "res" :: "err" :: _ => { s with implErr := true }
+    | [_, "strmap", v] =>
+      match parseValTok v with
+      | some v => { s with implStrmap := some v }
+      | none => { s with bad := some "unparsable strmap" }
+    | _ :: "typed" :: key :: rest =>
+      match unhexStr key.toList with
+      | some k => { s with implTyped := s.implTyped ++ [(k, rest)] }
+      | none => { s with bad := some "unparsable typed key" }
     | _ => s
   onEnd := fun s =>
     match s.bad with
@@ -256,6 +317,12 @@ def handler : Handler St where
         ++ (match checkLeftover s (.map res) with
             | some d => [s!"prop leftover=FAIL {d}"]
             | none => ["prop leftover=ok"])
+        ++ (match checkWants s with
+            | some d => [s!"prop typed=FAIL {d}"]
+            | none => ["prop typed=ok"])
+        ++ (match checkLeaks s with
+            | some d => [s!"prop leaks=FAIL {d}"]
+            | none => ["prop leaks=ok"])
       | _ =>
         -- the implementation reported an error: a well-formed token value must not make resolution fail
         if s.implErr && !s.toks.isEmpty && s.toks.all (fun kt => tokOK env kt.2 && numRefs kt.2 < env.fuel)
